@@ -441,11 +441,12 @@ func runProp(t *testing.T, test, vec string, quick, thorough int) {
 
 // One property per vector (so that each vector is searched, shrunk and
 // reported on its own) and one with all of them mixed in a session.
-func TestPropAttach(t *testing.T) { runProp(t, "attach", "attach", 300, 2000) }
-func TestPropWalk(t *testing.T)   { runProp(t, "walk", "walk", 400, 2500) }
-func TestPropCreate(t *testing.T) { runProp(t, "create", "create", 300, 2000) }
-func TestPropRename(t *testing.T) { runProp(t, "rename", "rename", 300, 2000) }
-func TestPropMixed(t *testing.T)  { runProp(t, "mixed", "", 300, 2500) }
+// (counts are per shard: the quick tier runs 2 shards, the thorough tier 16)
+func TestPropAttach(t *testing.T) { runProp(t, "attach", "attach", 150, 2000) }
+func TestPropWalk(t *testing.T)   { runProp(t, "walk", "walk", 200, 2500) }
+func TestPropCreate(t *testing.T) { runProp(t, "create", "create", 150, 2000) }
+func TestPropRename(t *testing.T) { runProp(t, "rename", "rename", 150, 2000) }
+func TestPropMixed(t *testing.T)  { runProp(t, "mixed", "", 150, 2500) }
 
 func TestReplay(t *testing.T) {
 	e, err := hx.LoadReplay()
